@@ -126,7 +126,10 @@ def apply_op(mgr, model, op, res, hist):
             accepted, rejected = int(bool(want)), int(not want)
         elif op[0] == "rm":
             want = model.remove(op[1])
-            mgr.remove_entry(op[1])
+            try:
+                mgr.remove_entry(op[1])
+            except Exception as e:  # noqa
+                res.viol("remove_entry_raised", history=hist, op=op, error=repr(e)[:200])
             accepted, rejected = int(want), int(not want)
         else:
             items = [{"formula": f, "smiles": s} for f, s in op[1]]
